@@ -72,6 +72,17 @@ theorem C22_order (sel : ThrSel) (rf : Nat) (replicated : Bool) (n : Nat) (rs rs
   · rw [← oks_perm hp i]; exact h i hi
   · rw [oks_perm hp i]; exact h i hi
 
+/-- **Several tenants in one request** (gRPC tuples, or the split-tenant label): the series ids run
+    over all tenants, a write carries the series of every tenant placed on its node, and the
+    request is acknowledged iff every series of every tenant has a quorum of successes — one
+    tenant's failed series fails the whole request. -/
+theorem C22_multi_tenant (sel : ThrSel) (rf : Nat) (replicated : Bool) (n : Nat) (rs : List Resp)
+    (tenantOf : Nat → Nat) (hrf : 1 ≤ rf) (hc : Complete n (nrepOf rf replicated) rs) :
+    fanout sel rf replicated n rs = .ok ↔
+      ∀ t, ∀ i, i < n → tenantOf i = t → quorumOf rf replicated ≤ oks rs i := by
+  rw [C22_ack_iff sel rf replicated n rs hrf hc]
+  exact ⟨fun h _ i hi _ => h i hi, fun h i hi => h (tenantOf i) i hi rfl⟩
+
 /-- an already replicated request needs the addressed replica only -/
 theorem C22_replicated_threshold (rf : Nat) : quorumOf rf true = 1 ∧ nrepOf rf true = 1 ∧ failThr rf true = 1 := by
   simp [quorumOf, nrepOf, failThr]
